@@ -18,6 +18,30 @@ CLAIMED = {
         "hand model (exhaustively compared), CPython list semantics.",
         "Lean 4 proof (induction + decide +kernel over the regenerated table) + exhaustive "
         "model/implementation correspondence", "DESIGN.md §5 C14"),
+    "C12": (
+        "Machine-checked Lean 4 proof about a hand model of obj2bytes/_hash (the bytes fed to MD5): the "
+        "length-prefixed list framing is injective (hence lists, parameter attributes, dictionaries and "
+        "the whole pre-image are injective in their item encodings: changing a single setting, entry, "
+        "attribute or data sample changes the pre-image), dictionary encoding is independent of insertion "
+        "order (sorted keys, proved with a total-order argument), the two documented don't-cares are "
+        "exactly what is ignored; key list regenerated from FP_DEFAULT. Tied to the code by byte-exact "
+        "comparison of the md5 pre-image captured inside IndentationFitter._hash.",
+        "Trusted: Lean kernel, standard axioms, MD5 collision resistance, injectivity of str(float(x)), the "
+        "harness' atom encoding, hand model (byte-exact sampled correspondence).",
+        "Lean 4 proof (induction, injectivity of netstring framing, sorted-permutation uniqueness) + "
+        "byte-exact pre-image correspondence", "DESIGN.md §5 C12"),
+    "C18": (
+        "Machine-checked Lean 4 proof about a hand model of _module_check/_module_autocomplete/register/"
+        "deregister/load_model_from_file and ancillary seeding: acceptance iff well-formed, missing "
+        "attribute => incomplete-model error, every rejection leaves registry/import path/bytecode flag "
+        "unchanged, register/deregister touch exactly their key, the import path is restored after every "
+        "operation sequence (induction over histories); attribute lists regenerated from the AST of "
+        "_module_check. Tied by correspondence on all single-fault mutants and random histories. Partial: "
+        "Python's import system is not modelled.",
+        "Trusted: Lean kernel, standard axioms, hand model (mutant + history correspondence), AST extraction "
+        "of the attribute lists; import machinery is runtime.",
+        "Lean 4 proof (decision-logic characterisation, invariant by induction over operation histories) + "
+        "mutant/history correspondence", "DESIGN.md §5 C18"),
 }
 
 PENDING_REASON = "check not built yet in this round (planned, see DESIGN.md §8); not claimed until its machinery exists"
